@@ -1439,6 +1439,47 @@ fn st_erase_stored_publish_v5() {
     core::mem::forget(c);
 }
 
+// one-packet forms of the above (the two-packet form exceeds 28 GB)
+fn erase_stored_one(q2: bool) {
+    let mut c = CC::new(Version::V5_0);
+    c.is_client = true;
+    c.status = ConnectionStatus::Connected;
+    c.need_store = true;
+    let i: u16 = kani::any();
+    kani::assume(i != 0);
+    use_ids(&mut c, &[i]);
+    if q2 {
+        c.pid_pubrec.insert(i);
+    } else {
+        c.pid_puback.insert(i);
+    }
+    c.store.add(mk_pub5(if q2 { 2 } else { 1 }, i, true).try_into().unwrap()).unwrap();
+    let m: u16 = kani::any();
+    let cnt: u16 = kani::any();
+    kani::assume(cnt >= 1 && cnt <= m);
+    c.publish_send_max = Some(m);
+    c.publish_send_count = cnt;
+    let ev = c.erase_stored_publish(i);
+    assert!(!sth::has(&c.store, i) && sth::len(&c.store) == 0, "[C06] the application erased exactly that PUBLISH");
+    assert!(c.publish_send_count == cnt - 1 && c.get_receive_maximum_vacancy_for_send() == Some(m - (cnt - 1)), "[C12] an erased exchange frees its Receive Maximum slot (QoS1 and QoS2 alike)");
+    assert!(ev.len() == 1 && is_released(&sm(&ev, 0), i) && !c.pid_man.is_used_id(i), "[C08] erasing releases the identifier exactly once");
+    assert!(!c.pid_puback.contains(&i) && !c.pid_pubrec.contains(&i), "[C06] nothing is awaited for an erased PUBLISH");
+    core::mem::forget(ev);
+    core::mem::forget(c);
+}
+#[kani::proof]
+#[kani::unwind(2)]
+#[kani::stub(core::str::from_utf8, utf8_model)]
+fn st_erase_stored_one_v5_q1() {
+    erase_stored_one(false)
+}
+#[kani::proof]
+#[kani::unwind(2)]
+#[kani::stub(core::str::from_utf8, utf8_model)]
+fn st_erase_stored_one_v5_q2() {
+    erase_stored_one(true)
+}
+
 // =================================================================== C07: PUBREC sent by the application (v5.0)
 #[kani::proof]
 #[kani::unwind(2)]
